@@ -30,18 +30,6 @@ Inductive err :=
 | EGuard              (* check-session / check-index / check-not-exists failed *)
 | EFuel.              (* model only: recursion fuel exhausted (proved unreachable) *)
 
-Inductive result (A : Type) := Ok (a : A) | Err (e : err).
-Arguments Ok {A} a.
-Arguments Err {A} e.
-#[global] Instance result_bind : MBind result :=
-  fun A B f r => match r with Ok a => f a | Err e => Err e end.
-
-Fixpoint rfold {A S} (f : S -> A -> result S) (l : list A) (s : S) : result S :=
-  match l with
-  | [] => Ok s
-  | x :: l' => s' ← f s x; rfold f l' s'
-  end.
-
 (* ---------- rows ---------- *)
 Record kvent := KV {
   kv_value : bytes; kv_flags : N; kv_session : string; kv_lock : N; kv_create : N; kv_modify : N }.
@@ -93,6 +81,22 @@ Definition st0 : st := St ∅ ∅ ∅ ∅ ∅ ∅ ∅ ∅ ∅ ∅.
 Definition repl (s : st) : st := s <| lockdelay := ∅ |>.
 
 Definition set_index (k : string) (idx : N) (s : st) : st := s <| index ::= <[k := idx]> |>.
+
+(* A computation inside a memdb write transaction either succeeds, or fails with the state as it
+   was at the point of failure: the caller aborts the transaction (dropping that state), except
+   that the lock-delay map, written outside the transaction, keeps what was written; and the
+   transaction dispatcher goes on executing later operations on that partial state. *)
+Inductive result (A : Type) := Ok (a : A) | Err (e : err) (partial : st).
+Arguments Ok {A} a.
+Arguments Err {A} e partial.
+#[global] Instance result_bind : MBind result :=
+  fun A B f r => match r with Ok a => f a | Err e p => Err e p end.
+
+Fixpoint rfold {A S} (f : S -> A -> result S) (l : list A) (s : S) : result S :=
+  match l with
+  | [] => Ok s
+  | x :: l' => s' ← f s x; rfold f l' s'
+  end.
 
 (* ---------- sorted iteration (memdb iterates in index order) ---------- *)
 Fixpoint sinsert (x : string) (l : list string) : list string :=
@@ -166,9 +170,9 @@ Definition kvs_delete_tree (idx : N) (p : string) (s : st) : st :=
 
 (* kvsLockTxn *)
 Definition kvs_lock (idx : N) (k : string) (e : kvent) (s : st) : result (bool * (st * kvent)) :=
-  if bool_decide (kv_session e = "") then Err ENoSession else
+  if bool_decide (kv_session e = "") then Err ENoSession s else
   match sessions s !! kv_session e with
-  | None => Err EInvalidSession
+  | None => Err EInvalidSession s
   | Some _ =>
     match kvs s !! k with
     | Some x =>
@@ -184,7 +188,7 @@ Definition kvs_lock (idx : N) (k : string) (e : kvent) (s : st) : result (bool *
 
 (* kvsUnlockTxn *)
 Definition kvs_unlock (idx : N) (k : string) (e : kvent) (s : st) : result (bool * (st * kvent)) :=
-  if bool_decide (kv_session e = "") then Err ENoSession else
+  if bool_decide (kv_session e = "") then Err ENoSession s else
   match kvs s !! k with
   | None => Ok (false, (s, e))
   | Some x =>
@@ -214,11 +218,11 @@ Definition ensure_check_with (del : N -> string -> st -> result st) (preserve : 
            (idx : N) (nd cid : string) (hc : check) (s : st) : result st :=
   let ex := checks s !! (nd, cid) in
   match nodes s !! nd with
-  | None => Err EMissingNode
+  | None => Err EMissingNode s
   | Some _ =>
     hc1 ← (if bool_decide (c_service hc = "") then Ok hc
            else match services s !! (nd, c_service hc) with
-                | None => Err EMissingService
+                | None => Err EMissingService s
                 | Some sv => Ok (hc <| c_svcname := sv_name sv |>)
                 end);
     let modified := match ex with Some x => negb (check_same x hc1) | None => true end in
@@ -254,20 +258,25 @@ Definition release_or_delete_keys (idx : N) (sid : string) (ss : session) (s : s
                                      else e) |>) in
   if s_delay ss then s1 <| lockdelay ::= fun d => dom held ∪ d |> else s1.
 
+(* deleteSessionTxn up to (not including) updateSessionCheck: the session row, the keys it holds,
+   its check links and its prepared queries go in one step *)
+Definition drop_session (idx : N) (sid : string) (ss : session) (s : st) : st :=
+  let s1 := set_index "sessions" idx (s <| sessions ::= delete sid |>) in
+  let s2 := release_or_delete_keys idx sid ss s1 in
+  let s3 := s2 <| schecks ::= filter (fun m => m.2 ≠ sid) |> in
+  let qs := filter (fun q => q.2 = sid) (queries s3) in
+  if bool_decide (qs = ∅) then s3
+  else set_index "prepared-queries" idx (s3 <| queries ::= filter (fun q => q.2 ≠ sid) |>).
+
 (* deleteSessionTxn; fuel bounds the session -> session-check -> session cascade *)
 Fixpoint delete_session (fuel : nat) (idx : N) (sid : string) (s : st) : result st :=
   match fuel with
-  | O => Err EFuel
+  | O => Err EFuel s
   | S fuel' =>
     match sessions s !! sid with
     | None => Ok s
     | Some ss =>
-      let s1 := set_index "sessions" idx (s <| sessions ::= delete sid |>) in
-      let s2 := release_or_delete_keys idx sid ss s1 in
-      let s3 := s2 <| schecks ::= filter (fun m => m.2 ≠ sid) |> in
-      let qs := filter (fun q => q.2 = sid) (queries s3) in
-      let s4 := if bool_decide (qs = ∅) then s3
-                else set_index "prepared-queries" idx (s3 <| queries ::= filter (fun q => q.2 ≠ sid) |>) in
+      let s4 := drop_session idx sid ss s in
       (* updateSessionCheck(..., critical): over the node's session-type checks named like the session *)
       rfold (fun s' cid =>
                match checks s4 !! (s_node ss, cid) with     (* iterator snapshot *)
@@ -289,9 +298,9 @@ Definition ensure_check := ensure_check_p false.
 
 (* sessionCreateTxn *)
 Definition session_create (idx : N) (sid : string) (ss : session) (s : st) : result st :=
-  if bool_decide (sid = "") then Err EMissingSessionID else
+  if bool_decide (sid = "") then Err EMissingSessionID s else
   match nodes s !! s_node ss with
-  | None => Err EMissingNode
+  | None => Err EMissingNode s
   | Some _ =>
     if forallb (fun cid => match checks s !! (s_node ss, cid) with
                            | None => false
@@ -309,7 +318,7 @@ Definition session_create (idx : N) (sid : string) (ss : session) (s : st) : res
                              (c <| c_status := 0 |> <| c_output := OInForce sid |>) s'
                end)
             (session_checks_of_node (s_node ss) (s_name ss) s1) s1
-    else Err EBadSessionCheck
+    else Err EBadSessionCheck s
   end.
 
 (* ---------- catalog ---------- *)
@@ -382,9 +391,9 @@ Definition ensure_node (idx : N) (nd id : string) (addr : N) (s : st) : result s
        match node_by_id id s with
        | Some (oname, on) =>
          if bool_decide (oname = nd) then Ok (Some on, s)
-         else if similar_clash false nd id s then Err ESimilarName
+         else if similar_clash false nd id s then Err ESimilarName s
          else s' ← delete_node idx oname s; Ok (Some on, s')
-       | None => if similar_clash true nd id s then Err ESimilarName else Ok (None, s)
+       | None => if similar_clash true nd id s then Err ESimilarName s else Ok (None, s)
        end);
   let '(n0, s1) := r in
   let n1 := match n0 with Some x => Some x | None => nodes s1 !! nd end in
@@ -400,7 +409,7 @@ Definition ensure_node (idx : N) (nd id : string) (addr : N) (s : st) : result s
 (* ensureServiceTxn for typical services (preserveIndexes = false) *)
 Definition ensure_service (idx : N) (nd svc name : string) (port : N) (s : st) : result st :=
   match nodes s !! nd with
-  | None => Err EMissingNode
+  | None => Err EMissingNode s
   | Some _ =>
     match services s !! (nd, svc) with
     | Some x =>
@@ -469,21 +478,21 @@ Definition txn_kv (idx : N) (v : kvverb) (q : kvreq) (s : st) : result (st * lis
   | VSet => let '(s', e') := kvs_set idx k e false s in Ok (s', [RKV k e' false])
   | VDelete => Ok (kvs_delete idx k s, [])
   | VDeleteCAS => let '(ok, s') := kvs_delete_cas idx (q_index q) k s in
-                  if ok then Ok (s', []) else Err EStale
+                  if ok then Ok (s', []) else Err EStale s
   | VDeleteTree => Ok (kvs_delete_tree idx k s, [])
   | VCAS => let '(ok, (s', e')) := kvs_set_cas idx k e s in
-            if ok then Ok (s', [RKV k e' false]) else Err EStale
+            if ok then Ok (s', [RKV k e' false]) else Err EStale s
   | VLock => match kvs_lock idx k e s with
              | Ok (true, (s', e')) => Ok (s', [RKV k e' false])
-             | Ok (false, _) => Err EStale
-             | Err er => Err er
+             | Ok (false, _) => Err EStale s
+             | Err er p => Err er p
              end
   | VUnlock => match kvs_unlock idx k e s with
                | Ok (true, (s', e')) => Ok (s', [RKV k e' false])
-               | Ok (false, _) => Err EStale
-               | Err er => Err er
+               | Ok (false, _) => Err EStale s
+               | Err er p => Err er p
                end
-  | VGet => match kvs s !! k with Some x => Ok (s, [RKV k x true]) | None => Err ENotFound end
+  | VGet => match kvs s !! k with Some x => Ok (s, [RKV k x true]) | None => Err ENotFound s end
   | VGetOrEmpty => match kvs s !! k with
                    | Some x => Ok (s, [RKV k x true])
                    | None => Ok (s, [RKV k (KV [] (q_flags q) (q_session q) (q_lock q) 0 (q_index q)) true])
@@ -493,15 +502,15 @@ Definition txn_kv (idx : N) (v : kvverb) (q : kvreq) (s : st) : result (st * lis
                                 ((fun k' => (k', default e (kvs s !! k'))) <$> ssort (elements (dom (kvs s)))))
   | VCheckSession => match kvs s !! k with
                      | Some x => if bool_decide (kv_session x = q_session q)
-                                 then Ok (s, [RKV k x false]) else Err EGuard
-                     | None => Err EGuard
+                                 then Ok (s, [RKV k x false]) else Err EGuard s
+                     | None => Err EGuard s
                      end
   | VCheckIndex => match kvs s !! k with
                    | Some x => if bool_decide (kv_modify x = q_index q)
-                               then Ok (s, [RKV k x false]) else Err EGuard
-                   | None => Err EGuard
+                               then Ok (s, [RKV k x false]) else Err EGuard s
+                   | None => Err EGuard s
                    end
-  | VCheckNotExists => match kvs s !! k with Some _ => Err EGuard | None => Ok (s, []) end
+  | VCheckNotExists => match kvs s !! k with Some _ => Err EGuard s | None => Ok (s, []) end
   end.
 
 Definition cas_ok {A} (modify : A -> N) (ex : option A) (cidx : N) : bool :=
@@ -516,15 +525,15 @@ Definition txn_node (idx : N) (v : catverb) (nd id : string) (addr cidx : N) (s 
       if bool_decide (id = "") then (fun n => (nd, n)) <$> nodes s' !! nd else node_by_id id s' in
   let reply (s' : st) := match get s' with Some (nm, n) => Ok (s', [RNode nm n]) | None => Ok (s', []) end in
   match v with
-  | CGet => match get s with Some (nm, n) => Ok (s, [RNode nm n]) | None => Err ENotFound end
+  | CGet => match get s with Some (nm, n) => Ok (s, [RNode nm n]) | None => Err ENotFound s end
   | CSet => s' ← ensure_node idx nd id addr s; reply s'
   | CCAS => if cas_ok n_modify (nodes s !! nd) cidx
-            then s' ← ensure_node idx nd id addr s; reply s' else Err EStale
+            then s' ← ensure_node idx nd id addr s; reply s' else Err EStale s
   | CDelete => s' ← delete_node idx nd s; Ok (s', [])
   | CDeleteCAS => match nodes s !! nd with
-                  | None => Err EStale
+                  | None => Err EStale s
                   | Some x => if bool_decide (n_modify x = cidx)
-                              then s' ← delete_node idx nd s; Ok (s', []) else Err EStale
+                              then s' ← delete_node idx nd s; Ok (s', []) else Err EStale s
                   end
   end.
 
@@ -534,15 +543,15 @@ Definition txn_service (idx : N) (v : catverb) (nd svc name : string) (port cidx
                          | Some x => Ok (s', [RService nd svc x]) | None => Ok (s', []) end in
   match v with
   | CGet => match services s !! (nd, svc) with
-            | Some x => Ok (s, [RService nd svc x]) | None => Err ENotFound end
+            | Some x => Ok (s, [RService nd svc x]) | None => Err ENotFound s end
   | CSet => s' ← ensure_service idx nd svc name port s; reply s'
   | CCAS => if cas_ok sv_modify (services s !! (nd, svc)) cidx
-            then s' ← ensure_service idx nd svc name port s; reply s' else Err EStale
+            then s' ← ensure_service idx nd svc name port s; reply s' else Err EStale s
   | CDelete => s' ← delete_service idx nd svc s; Ok (s', [])
   | CDeleteCAS => match services s !! (nd, svc) with
-                  | None => Err EStale
+                  | None => Err EStale s
                   | Some x => if bool_decide (sv_modify x = cidx)
-                              then s' ← delete_service idx nd svc s; Ok (s', []) else Err EStale
+                              then s' ← delete_service idx nd svc s; Ok (s', []) else Err EStale s
                   end
   end.
 
@@ -552,15 +561,15 @@ Definition txn_check (idx : N) (v : catverb) (c : checkreq) (s : st) : result (s
                          | Some x => Ok (s', [RCheck nd cid x]) | None => Ok (s', []) end in
   match v with
   | CGet => match checks s !! (nd, cid) with
-            | Some x => Ok (s, [RCheck nd cid x]) | None => Err ENotFound end
+            | Some x => Ok (s, [RCheck nd cid x]) | None => Err ENotFound s end
   | CSet => s' ← ensure_check idx nd cid (check_of c) s; reply s'
   | CCAS => if cas_ok c_modify (checks s !! (nd, cid)) (cr_index c)
-            then s' ← ensure_check idx nd cid (check_of c) s; reply s' else Err EStale
+            then s' ← ensure_check idx nd cid (check_of c) s; reply s' else Err EStale s
   | CDelete => s' ← delete_check idx nd cid s; Ok (s', [])
   | CDeleteCAS => match checks s !! (nd, cid) with
-                  | None => Err EStale
+                  | None => Err EStale s
                   | Some x => if bool_decide (c_modify x = cr_index c)
-                              then s' ← delete_check idx nd cid s; Ok (s', []) else Err EStale
+                              then s' ← delete_check idx nd cid s; Ok (s', []) else Err EStale s
                   end
   end.
 
@@ -572,7 +581,7 @@ Definition txn_op (idx : N) (op : txnop) (s : st) : result (st * list tres) :=
   | TCheck v c => txn_check idx v c s
   | TSessionDelete sid =>
     match sessions s !! sid with
-    | None => Err ENotFound
+    | None => Err ENotFound s
     | Some _ => s' ← delete_session_top idx sid s; Ok (s', [])
     end
   end.
@@ -586,14 +595,13 @@ Fixpoint txn_dispatch (idx : N) (i : nat) (ops : list txnop) (s : st)
     match txn_op idx op s with
     | Ok (s', r) =>
       let '(s'', rs, es) := txn_dispatch idx (S i) rest s' in (s'', r ++ rs, es)
-    | Err e =>
-      let '(s'', rs, es) := txn_dispatch idx (S i) rest s in (s'', rs, (i, e) :: es)
+    | Err e sp =>
+      let '(s'', rs, es) := txn_dispatch idx (S i) rest sp in (s'', rs, (i, e) :: es)
     end
   end.
 
-(* NOTE (faithful): an operation that fails part-way (e.g. a cascade erroring in the middle) leaves its
-   partial writes in the memdb transaction; here a failing op returns no state, so the remaining ops run
-   on the state before it.  The difference is never observable: the transaction is aborted. *)
+(* Faithful: an operation that fails part-way leaves its partial writes in the memdb transaction and
+   the remaining operations run on them ([Err] carries that state); all of it is dropped at the end. *)
 
 (* TxnRW: commit iff no error.  The lock-delay map is written during dispatch, outside the
    memdb transaction, so it survives an abort (faithful; see DESIGN.md finding 15). *)
@@ -606,7 +614,7 @@ Definition txn_rw (idx : N) (ops : list txnop) (s : st) : st * cres :=
 
 (* ---------- the FSM ---------- *)
 Definition of_unit (r : result st) (s : st) : st * cres :=
-  match r with Ok s' => (s', CNil) | Err e => (s, CErr e) end.
+  match r with Ok s' => (s', CNil) | Err e p => (s <| lockdelay := lockdelay p |>, CErr e) end.
 
 Definition apply_kvs (idx : N) (v : kvverb) (q : kvreq) (s : st) : st * cres :=
   let k := q_key q in let e := ent_of q in
@@ -618,11 +626,11 @@ Definition apply_kvs (idx : N) (v : kvverb) (q : kvreq) (s : st) : st * cres :=
   | VCAS => let '(ok, (s', _)) := kvs_set_cas idx k e s in (if ok then s' else s, CBool ok)
   | VLock => match kvs_lock idx k e s with
              | Ok (ok, (s', _)) => (if ok then s' else s, CBool ok)
-             | Err er => (s, CErr er)
+             | Err er p => (s, CErr er)
              end
   | VUnlock => match kvs_unlock idx k e s with
                | Ok (ok, (s', _)) => (if ok then s' else s, CBool ok)
-               | Err er => (s, CErr er)
+               | Err er p => (s, CErr er)
                end
   | _ => (s, CErr EGuard)     (* "Invalid KVS operation": read verbs are not FSM commands *)
   end.
@@ -647,12 +655,12 @@ Definition ensure_registration (idx : N) (nd id : string) (addr : N) (skip : boo
           end
         end);
   rfold (fun s' c => if bool_decide (cr_node c = nd) then ensure_check idx nd (cr_id c) (check_of c) s'
-                     else Err ECheckNodeMismatch) cks s2.
+                     else Err ECheckNodeMismatch s') cks s2.
 
 Definition query_set (idx : N) (qid sess : string) (s : st) : result st :=
   if bool_decide (sess = "") || bool_decide (is_Some (sessions s !! sess))
   then Ok (set_index "prepared-queries" idx (s <| queries ::= <[qid := sess]> |>))
-  else Err EInvalidSession.
+  else Err EInvalidSession s.
 
 Definition query_delete (idx : N) (qid : string) (s : st) : st :=
   match queries s !! qid with
@@ -664,7 +672,10 @@ Definition apply (idx : N) (c : cmd) (s : st) : st * cres :=
   match c with
   | KVS v q => apply_kvs idx v q s
   | SessionCreate sid ss =>
-    match session_create idx sid ss s with Ok s' => (s', CStr sid) | Err e => (s, CErr e) end
+    match session_create idx sid ss s with
+    | Ok s' => (s', CStr sid)
+    | Err e p => (s <| lockdelay := lockdelay p |>, CErr e)
+    end
   | SessionDestroy sid => of_unit (delete_session_top idx sid s) s
   | Register nd id addr skip svc cks => of_unit (ensure_registration idx nd id addr skip svc cks s) s
   | Deregister nd svc cid =>
@@ -677,10 +688,9 @@ Definition apply (idx : N) (c : cmd) (s : st) : st * cres :=
   | QueryDelete qid => (query_delete idx qid s, CNil)
   end.
 
-(* A failing command must not leave lock delays either... it does (faithful): the delays set by a
-   cascade that later errors survive.  [apply] above returns [s] unchanged on error, which differs
-   from the code only in [lockdelay]; erroring cascades are not reachable from valid states
-   (Proofs: no command errors after its first write), so this is not observable. *)
+(* A failing command aborts its memdb transaction, but the lock delays set before the failure
+   survive (faithful; e.g. a registration whose first check goes critical and whose second check
+   names a missing service). *)
 
 Fixpoint run (log : list (N * cmd)) (s : st) : st * list cres :=
   match log with
